@@ -264,7 +264,7 @@ theorem addLinks_spec : ∀ (ls : List Link) (d : Db), (∀ l, l ∈ ls → d.li
     rw [hl' l']
     by_cases h : l' = l
     · subst h; simp
-      simp [h]
+    · simp [h]
 
 /-! ### the flush theorem -/
 
